@@ -49,7 +49,7 @@ namespace glm
 			if(a.negative() != b.negative())
 			{
 				// Check for equality to make sure +0==-0
-				Result[i] = a.mantissa() == b.mantissa() && a.exponent() == b.exponent();
+				Result[i] = x[i] == y[i];
 			}
 			else
 			{
